@@ -107,6 +107,8 @@ impl Prop for C10 {
                     }
                     // some handlers check for a full buffer after every datum
                     u.plan.finish_each = rng.chance(1, 5);
+                    // ... and some of those carry on whatever it says (only the last finish() counts)
+                    u.plan.finish_ignore = u.plan.finish_each && rng.chance(1, 2);
                     if u.query && rng.chance(1, 1500) {
                         // a very long response unit (length counters)
                         let n = rng.urange(255, 300);
